@@ -186,6 +186,10 @@ func C05(c *core.Ctx) {
 // c05sched: the attacker's teardown races the fan-out of the witness' publishes to it.
 func c05sched(c *core.Ctx, dev int) {
 	for _, variant0 := range []string{"attacker-first", "attacker-last", "attacker-not-reading", "attacker-ring-full", "attacker-ring-full/garbage", "attacker-ring-full/disconnect", "attacker-ring-full/keepalive",
+		// the stalled attacker has sent something that needs an answer (a PINGREQ; a publish on the
+		// topic it is subscribed to itself) before it vanishes: its own processor is stuck behind
+		// the witness publisher's delivery and cannot be the one that notices the end
+		"attacker-ring-full/pinged", "attacker-ring-full/own-publish",
 		"attacker-last+subscribed-first", "attacker-not-reading+subscribed-first", "attacker-ring-full+subscribed-first"} {
 		for _, q := range []byte{0, 1} {
 			variant0, q := variant0, q
@@ -232,6 +236,15 @@ func c05sched(c *core.Ctx, dev int) {
 					}
 					t.settleExcept()
 					ws.rc.Take()
+					switch variant {
+					case "attacker-ring-full/pinged":
+						x.rc.Send(&refcodec.Packet{Type: refcodec.PINGREQ})
+						t.settleExcept()
+					case "attacker-ring-full/own-publish":
+						x.rc.Send(&refcodec.Packet{Type: refcodec.PUBLISH, Topic: []byte("wit/ness"), Payload: []byte(big(8000, 9))})
+						t.settleExcept()
+						ws.rc.Take()
+					}
 				}
 				vsched.Mark()
 				// the witness publishes two messages, the attacker vanishes
